@@ -68,9 +68,9 @@ Example C14_interrupts_invisible_example :
   s_rs (src (fa_strip c14_fa_reader)) = [RDeliver 3; RDeliver 0; RFailI 7; RDeliver 5] /\
   let a1 := fa_next 30 30 c14_fa_reader in let b1 := fa_next 30 30 (fa_strip c14_fa_reader) in
   let a2 := fa_next 30 30 (fst a1) in let b2 := fa_next 30 30 (fst b1) in
-  snd a1 = OErr (FaIo 7) /\ snd b1 = snd a1 /\ snd b2 = snd a2 /\ (exists rc, snd a2 = ORec rc).
+  snd a1 = OErr (FaIo 7) /\ snd b1 = snd a1 /\ snd b2 = snd a2 /\ snd a2 = ONone.
 Proof.
-  split; [unfold FuelOk; cbn; lia|]. vm_compute. repeat split; try reflexivity. eexists; reflexivity.
+  split; [unfold FuelOk; cbn; lia|]. vm_compute. repeat split; reflexivity.
 Qed.
 
 Example C14_fq_interrupts_invisible_example :
